@@ -1387,3 +1387,52 @@ def apply_delta_dispatch(R, ctx, rid):
         pos.add(mir_root(fn, cs.args[pi]))
         R.ob(rid, fn, site, not bad, "%s -> %s with its own payload" % (variant, site) if not bad else "; ".join(bad), cs.loc())
     R.ob(rid, fn, "one-position", len(pos) == 1, "all three workers advance the same running position: %s" % (len(pos) == 1))
+
+
+PRELIM_KINDS = {
+    "<yrs::types::array::ArrayPrelim as yrs::block::Prelim>::into_content": {"Array"},
+    "<yrs::types::map::MapPrelim as yrs::block::Prelim>::into_content": {"Map"},
+    "<yrs::types::text::DeltaPrelim as yrs::block::Prelim>::into_content": {"Text"},
+    "<yrs::types::text::TextPrelim as yrs::block::Prelim>::into_content": {"Text"},
+    "<yrs::types::xml::XmlDeltaPrelim as yrs::block::Prelim>::into_content": {"XmlText"},
+    "<yrs::types::xml::XmlElementPrelim as yrs::block::Prelim>::into_content": {"XmlElement"},
+    "<yrs::types::xml::XmlFragmentPrelim as yrs::block::Prelim>::into_content": {"XmlFragment"},
+    "<yrs::types::xml::XmlTextPrelim as yrs::block::Prelim>::into_content": {"XmlText"},
+}
+IN_KINDS = {"Text": "Text", "Array": "Array", "Map": "Map", "XmlElement": "XmlElement", "XmlFragment": "XmlFragment",
+            "XmlText": "XmlText", "SubDoc": "Doc", "WeakLink": "WeakLink"}   # TypeRef variant -> In variant
+
+
+def prelim_kinds(R, ctx, rid):
+    """a preliminary value creates the shared type of its own kind."""
+    Y = ctx.yrs
+    R.rule(rid, "R-TABLE kind of the type a preliminary value creates: every Prelim::into_content builds Branch::new(TypeRef::K) with "
+                "the K of its own kind (ArrayPrelim → Array, TextPrelim / DeltaPrelim → Text, XmlTextPrelim / XmlDeltaPrelim → XmlText, "
+                "…), and the polymorphic `In` builds TypeRef::K exactly for its variant of that kind (Doc → SubDoc) — the kind decides "
+                "how every replica reads the nested collection back")
+    n = 0
+    for path, want in sorted(PRELIM_KINDS.items()):
+        fn = Y.fn(path)
+        got = set()
+        for i, j, st in fn.stmts():
+            ag = st["rv"].get("agg") if isinstance(st["rv"], dict) else None
+            if ag and str(ag.get("adt", "")).endswith("types::TypeRef"):
+                got.add(ag.get("variant"))
+        n += 1
+        R.ob(rid, fn, "kind", got == want, "creates TypeRef::%s" % sorted(got) if got == want else "creates TypeRef::%s — expected %s" % (sorted(got), sorted(want)))
+    fn = Y.fn("<yrs::input::In as yrs::block::Prelim>::into_content")
+    names = [v[1] for v in Y.enums.get("yrs::input::In", [])]
+    seen = set()
+    for i, j, st in fn.stmts():
+        ag = st["rv"].get("agg") if isinstance(st["rv"], dict) else None
+        if ag and str(ag.get("adt", "")).endswith("types::TypeRef"):
+            var = ag.get("variant")
+            kinds, used = kinds_reaching(Y, fn, i, enum="yrs::input::In", place_hint=None, names=names)
+            seen.add(var)
+            n += 1
+            ok = var in IN_KINDS and kinds == {IN_KINDS[var]} and used > 0
+            R.ob(rid, fn, "kind:" + str(var), ok, "TypeRef::%s for In::%s" % (var, sorted(kinds)) if ok else
+                 "TypeRef::%s is built for In::%s — expected In::%s only" % (var, sorted(kinds), IN_KINDS.get(var)))
+    expected = {k for k, v in IN_KINDS.items() if v in names}
+    R.ob(rid, fn, "all-kinds", expected <= seen, "kinds built: %s" % sorted(seen) if expected <= seen else "never builds TypeRef::%s" % sorted(expected - seen))
+    R.floor(rid, "kind constructions checked", n, 12)
